@@ -995,8 +995,9 @@ impl<ChannelSigner: EcdsaChannelSigner> OnchainTxHandler<ChannelSigner> {
 		});
 
 		#[cfg(feature = "verif_hooks")]
-		crate::ln::verif_hooks::pkgtrace::push(alloc::format!("agg-pre {} {}", cur_height, if requests.is_empty() { alloc::string::String::from("-") } else {
-			requests.iter().map(|r| r.verif_dump()).collect::<Vec<_>>().join(";") }));
+		crate::ln::verif_hooks::pkgtrace::push(alloc::format!("agg-pre {} {} {}", cur_height, if requests.is_empty() { alloc::string::String::from("-") } else {
+			requests.iter().map(|r| r.verif_dump()).collect::<Vec<_>>().join(";") },
+			destination_script.as_bytes().iter().map(|b| alloc::format!("{:02x}", b)).collect::<Vec<_>>().join("")));
 		// Then try to maximally aggregate `requests`.
 		for i in (1..requests.len()).rev() {
 			for j in 0..i {
@@ -1128,8 +1129,9 @@ impl<ChannelSigner: EcdsaChannelSigner> OnchainTxHandler<ChannelSigner> {
 			let txs: Vec<alloc::string::String> = txn_matched.iter().map(|tx| alloc::format!("{}/{}",
 				&alloc::format!("{}", tx.compute_txid())[..8],
 				tx.input.iter().map(|i| alloc::format!("{}:{}", &alloc::format!("{}", i.previous_output.txid)[..8], i.previous_output.vout)).collect::<Vec<_>>().join("+"))).collect();
-			crate::ln::verif_hooks::pkgtrace::push(alloc::format!("pre {} {} {} {}", conf_height, cur_height,
-				self.verif_pkg_dump(), if txs.is_empty() { alloc::string::String::from("-") } else { txs.join(";") }));
+			crate::ln::verif_hooks::pkgtrace::push(alloc::format!("pre {} {} {} {} {}", conf_height, cur_height,
+				self.verif_pkg_dump(), if txs.is_empty() { alloc::string::String::from("-") } else { txs.join(";") },
+				destination_script.as_bytes().iter().map(|b| alloc::format!("{:02x}", b)).collect::<Vec<_>>().join("")));
 		}
 		for tx in txn_matched {
 			// Scan all input to verify is one of the outpoint spent is of interest for us
